@@ -498,6 +498,8 @@ CHECKS = {
     'C10': {
         'level': 'model_checking',
         'jobs': [
+            C('corescn', 'TestCore', 'TraceCore', file='core', n={'quick': 150, 'thorough': 4000},
+              scn=[('MC_CoreScn', {'quick': ['CoreScn_as.cfg'], 'thorough': ['CoreScn_as.cfg', 'CoreScn_sy.cfg']})]),
             T('MC_Core', 'Core_C13.cfg'), T('MC_Req', 'Req_q03.cfg'), T('MC_RepLike', 'Rep_quick.cfg'),
             T('MC_Surveyor', 'Surveyor_quick.cfg'), T('MC_RawSock', 'Raw_xpair.cfg'), T('MC_RawSock', 'Raw_xpush.cfg'),
             T('MC_Lifecycle', 'Lifecycle.cfg', workers=2),
